@@ -54,7 +54,62 @@ def run(ctx):
         ctx.cov["binding_selftest"].append({"corrupted": "owner of a created resource", "rejected": len(m2) > 0})
         if not m2:
             raise vlib.Infra("binding self-test: corrupted access row accepted")
+    outtrack(ctx, quick)
     ctx.assumptions += ["one namespace; output declarations are by type (as in the API); rate limiting of writes is not exercised"]
+
+
+def outtrack(ctx, quick):
+    """Output tracking (StartTrackingOutputs / CleanupOutputs): OutTrack.tla checked exhaustively, random walks of it
+    replayed through a probe controller on the real runtime, every command judged by TraceOutTrack."""
+    vlib.mc(ctx, "MC_OutTrack", "MC_OutTrack_quick.cfg" if quick else "MC_OutTrack_thorough.cfg", timeout=3000)
+    n = 200 if quick else 4000
+    behs = vlib.gen_behaviours(ctx, "GenOutTrack", "GenOutTrack.cfg", num=n, depth=200, name="gen-outtrack",
+                               env={"GEN_DEPTH": 30 if quick else 50})[:n]
+    ctx.cov["behaviours_replayed"] += len(behs)
+    ctx.cov["outtrack_behaviours"] = len(behs)
+    ctx.sample({"outtrack_behaviour_head": behs[0][:8]})
+    inp = os.path.join(ctx.scratch, "obehs.json")
+    json.dump(behs, open(inp, "w"))
+    binary = vlib.go_build_test(ctx, "c08")
+    out = os.path.join(ctx.scratch, "outtrack.ndjson")
+    vlib.go_run(ctx, binary, "TestOutTrack", {"VERIF_IN": inp, "VERIF_OUT": out}, timeout=2400)
+    recs = vlib.read_ndjson(out)
+    traces = vlib.split_traces(recs)
+    mism, consumed, vr = vlib.validate(ctx, "TraceOutTrack", "TraceOutTrack.cfg", out, timeout=2400, name="val-outtrack")
+    if consumed != len(recs):
+        raise vlib.Infra("TraceOutTrack consumed %s of %d\n%s" % (consumed, len(recs), vr.out[-2500:]))
+    details = [x for x in vr.out.splitlines() if x.startswith('<<"DETAIL"')]
+    ctx.cov["traces_validated_against_impl"] += len(traces)
+    ctx.cov["outtrack_commands_judged"] = len(recs) - len(traces)
+    ctx.cov["outtrack_cleanups"] = {c: len([x for x in recs if x.get("c") == "cleanup" and x.get("cls") == c]) for c in ("ok", "conflict", "panic")}
+    ctx.sample({"outtrack_line": recs[1]})
+    bad = set()
+    for i, line in enumerate(mism):
+        m = re.match(r'<<"MISMATCH", "([^"]*)", (\d+), "([^"]*)">>', line)
+        tid, lno, what = m.group(1), int(m.group(2)), m.group(3)
+        bad.add(tid)
+        rec = recs[lno - 1]
+        ctx.violation("outtrack/%s/%s" % (what, rec["c"]), "%s: %s" % (what, (details[i] if i < len(details) else "")[:900]),
+                      {"tid": tid, "line": lno, "behaviour": behs[int(tid.split("#")[1])],
+                       "trace": [t for t in traces if t[0] == tid][0][1]})
+    # binding self-test: a successful cleanup whose log claims that a victim survived must be rejected
+    import copy
+    for tid, t in traces:
+        if tid in bad:
+            continue
+        idx = [i for i, x in enumerate(t) if x.get("c") == "cleanup" and x["cls"] == "ok" and i > 0
+               and any(t[i - 1]["res"][k]["ver"] != 0 and x["res"][k]["ver"] == 0 for k in x["res"])]
+        if not idx:
+            continue
+        t2 = copy.deepcopy(t)
+        t2[idx[0]]["res"] = copy.deepcopy(t2[idx[0] - 1]["res"])
+        p = os.path.join(ctx.scratch, "oself.ndjson")
+        vlib.write_ndjson(p, t2)
+        m2, _, _ = vlib.validate(ctx, "TraceOutTrack", "TraceOutTrack.cfg", p, name="selftest-outtrack")
+        ctx.cov["binding_selftest"].append({"corrupted": "the victims of one successful cleanup put back into the log", "rejected": len(m2) > 0})
+        if not m2:
+            raise vlib.Infra("binding self-test: corrupted output-tracking trace accepted")
+        break
 
 
 if __name__ == "__main__":
